@@ -21,6 +21,8 @@ SRC = {
     "eu_3857_southup": ("epsg:3857", (1558472.0, 6446275.0), 10.0, (64, 80), "flipy"),
     "eu_3857_mirrored": ("epsg:3857", (1558472.0, 6446275.0), 10.0, (64, 80), "flipx"),
     "eu_32633_offlattice": ("epsg:32633", (430007.0, 5540011.0), 30.0, (50, 40), 0),
+    "au_4326_nonsquare": ("epsg:4326", (145.0, -25.0), (0.002, 0.001), (40, 50), 0),
+    "eu_32633_nonsquare": ("epsg:32633", (430000.0, 5540000.0), (30.0, 60.0), (50, 40), 0),
 }
 EXPLICIT = {"metre": 100.0, "degree": 0.001}
 
@@ -31,7 +33,8 @@ def _source(name):
     from odc.geo.geobox import GeoBox
 
     crs, (x0, y0), res, shape, rot = SRC[name]
-    g = GeoBox(shape, Affine(res, 0, x0, 0, -res, y0 + res * shape[0]), crs)
+    rx, ry = res if isinstance(res, tuple) else (res, res)
+    g = GeoBox(shape, Affine(rx, 0, x0, 0, -ry, y0 + ry * shape[0]), crs)
     if rot == "flipy":
         return g.flipy()
     if rot == "flipx":
